@@ -45,6 +45,23 @@ def model(tier):
     return tlagen.mc_module("MC", "NoLookahead", defs), tlagen.cfg(defs, plain, invariants=inv), inv, n
 
 
+def model_markov(tier):
+    """repeated and abandoned episodes on one environment with a Markovian transmitter: episodes of a requested length
+    starting at a drawn position, followed by further episodes that step through the earlier starting point"""
+    n = 4
+    cs = candidates(n)
+    defs = {
+        "Grid": list(G[:n]), "Cand": cs, "Mandatory": set(range(1, n + 1)), "Lats": {0, L},
+        "Folds": tlagen.Raw("{<<0, 2000000000>>}"), "Modes": tlagen.Raw("{[markov |-> TRUE, warmup |-> -1]}"),
+        "Delays": {0}, "EpLens": {0}, "ResetLens": {0, 2}, "Spaces": {"box"}, "Bads": tlagen.Raw('{[at |-> 0, cls |-> "ok"]}'),
+        "Cuts": set(G[1: n - 1]),
+    }
+    plain = {"DayLen": DAY, "MaxOpt": 1, "MaxCalls": 5 if tier == "quick" else 6, "ResetAnywhere": True, "ClockRule": "after_newdate",
+             "HistoryOrder": "by_time", "NullRule": "in_space"}
+    inv = ["PrefixEqual", "NextExecCut"]
+    return tlagen.mc_module("MC", "NoLookahead", defs), tlagen.cfg(defs, plain, invariants=inv), inv, plain["MaxCalls"]
+
+
 def model_subsecond(tier):
     """units of 0.1 ms: extra quotes one tick beyond the latency bound"""
     u = 10000
@@ -135,15 +152,17 @@ def replay_chunk(ctx, texts):
         histA, histB = list(s["histA"]), list(s["histB"])
         wa = replay_env.World(cfgA, True, seed=1, extra_features=lambda w: [Obs(w.A, w.B)])
         wb = replay_env.World(cfgB, True, seed=2, extra_features=lambda w: [Obs(w.A, w.B)])
-        stepsA = list(s["envA"]["steps"])
         grid = list(cfgA["grid"])
+        fsteps = list(cfgA["fsteps"])
         same_lat = [e for e in cfgA["events"] if e["t"] <= cut + cfgA["lat"]] == [e for e in cfgB["events"] if e["t"] <= cut + cfgB["lat"]]
         bad = None
         j = 0
         for i, rec in enumerate(histA):
             if rec["call"] == "reset":
                 j = 0
-                ra, rb = wa.reset(1), wb.reset(1)
+                st, rl = rec["start"] or 1, rec["act"]["id"]
+                stepsA = fsteps[st - 1: st - 1 + rl] if rl else fsteps[st - 1:]       # timesteps of this episode
+                ra, rb = wa.reset(st, rl), wb.reset(st, rl)
             else:
                 j += 1
                 ra, rb = wa.step(rec["act"]), wb.step(histB[i]["act"])
@@ -194,6 +213,9 @@ def c02(tier, seed):
     ]
     module, cfg, inv, n = model(tier)
     explore.explore_and_replay(rep, "pairs", module, cfg, ("harness.nolook_check", "replay_chunk"), {"maxcalls": n},
+                               set(CLAUSE_PROPS), inv, [], chunk=100)
+    module, cfg, inv, n = model_markov(tier)
+    explore.explore_and_replay(rep, "pairs-markov-episodes", module, cfg, ("harness.nolook_check", "replay_chunk"), {"maxcalls": n},
                                set(CLAUSE_PROPS), inv, [], chunk=100)
     module, cfg, inv, n, tick = model_subsecond(tier)
     explore.explore_and_replay(rep, "pairs-subsecond", module, cfg, ("harness.nolook_check", "replay_chunk"),
